@@ -48,7 +48,7 @@ def verus_cmd(path, rlimit=None, seed=None):
 
 def run_verus(path, rlimit=None, seed=None, timeout=None):
     import signal
-    timeout = timeout or int(os.environ.get('VERIF_VERUS_TIMEOUT', '300'))
+    timeout = timeout or int(os.environ.get('VERIF_VERUS_TIMEOUT', '900'))
     t0 = time.time()
     cmd = verus_cmd(path, rlimit, seed)
     # own process group, so that a timeout also kills the z3 child
